@@ -147,6 +147,8 @@ type World struct {
 	TraceOn   bool
 	ipid      uint16 // identification counter of packets the scripted peer builds
 	mon6      *Monitor
+	DropIDs   map[int]bool        // emissions (by frame number) the wire loses: fault positions chosen up front
+	DropGuard func(f *Frame) bool // frames the fault model does not allow to lose
 	rel       *relTrace
 	peerMon   bool // a scripted-peer world: its own monitor sees every frame
 }
@@ -376,6 +378,12 @@ func (w *World) deliver(link, k, mode int, wait bool) bool {
 		return false
 	}
 	f := l.Queue[k]
+	if w.DropIDs[f.ID] && !f.Dup && (w.DropGuard == nil || !w.DropGuard(f)) {
+		// enumerated fault: this emission is lost, whenever it comes up for delivery
+		delete(w.DropIDs, f.ID)
+		w.Probes["enumerated_drops_fired"]++
+		return w.Drop(link, k)
+	}
 	l.Queue = append(l.Queue[:k], l.Queue[k+1:]...)
 	if k > 0 {
 		w.Faults["reorder"]++
